@@ -13,7 +13,7 @@ import (
 )
 
 func init() {
-	register(&core.Rule{ID: "GOB-FRESH", Props: []string{"C05", "C06", "C12"}, Floor: 8,
+	register(&core.Rule{ID: "GOB-FRESH", Props: []string{"C05", "C06", "C12", "C13"}, Floor: 8,
 		Doc: "a gob Decode inside a loop decodes into a variable declared inside that loop (fresh per iteration): gob omits zero-valued fields on the wire and leaves the destination untouched, so a reused destination keeps the previous element's fields",
 		Run: runGobFresh})
 	register(&core.Rule{ID: "OPERAND-TRAVERSED", Props: []string{"C12"}, Floor: 4,
